@@ -405,6 +405,7 @@ func runC02(c *eng.Ctx) {
 	ruleEpochBoundaryMeansOneThing(c)
 	c.Rule("R02.2", "K1")
 	ruleNoBlindHWTruncation(c)
+	ruleTruncationPointIsTheLeadersAnswer(c)
 	c.Rule("R08.7", "K2")
 	ruleCompactionKeepsEpochBoundaries(c)
 	c.Rule("R02.4", "K1")
